@@ -3,6 +3,7 @@ package driver
 import (
 	"context"
 	"fmt"
+	"sync"
 	"sync/atomic"
 	"time"
 
@@ -40,12 +41,15 @@ type Env struct {
 	AtQuiescence func() bool
 
 	clock int64
+	mu    sync.Mutex // raw cross-check mode only: user functions run on library goroutines
 	// Data is the scenario's own state for this run.
 	Data any
 }
 
 // Failf records the first violation and stops the run.
 func (e *Env) Failf(clause, class, format string, args ...any) {
+	e.mu.Lock()
+	defer e.mu.Unlock()
 	if simrt.Free() || e.Viol != nil {
 		return
 	}
@@ -67,15 +71,19 @@ func (e *Env) FailPost(clause, class, format string, args ...any) {
 func (e *Env) Tick() int64 { e.clock++; return e.clock }
 
 func (e *Env) Probe(name string) {
+	e.mu.Lock()
 	if !simrt.Free() {
 		e.Probes[name]++
 	}
+	e.mu.Unlock()
 }
 
 func (e *Env) Fault(kind string) {
+	e.mu.Lock()
 	if !simrt.Free() {
 		e.Faults[kind]++
 	}
+	e.mu.Unlock()
 }
 
 // Cancel cancels the run's context (once) and records where.
@@ -317,12 +325,14 @@ func (e *Env) Enter(c *Calls, arg int) int {
 	if simrt.Free() {
 		return -1
 	}
+	e.mu.Lock()
 	idx := len(c.List)
 	task := -1
-	if t := e.S.Cur(); t != nil {
+	if t := e.S.Cur(); t != nil && !simrt.RawLib {
 		task = t.ID
 	}
 	c.List = append(c.List, Call{Arg: arg, Task: task, Seq: e.S.Seq, VT: e.S.Now()})
+	e.mu.Unlock()
 	for i := 0; i < e.Plan.FnYields; i++ {
 		simrt.Yield("fn.yield")
 	}
@@ -335,6 +345,8 @@ func (e *Env) Enter(c *Calls, arg int) int {
 
 // Leave marks the end of user-function call idx.
 func (e *Env) Leave(c *Calls, idx int) {
+	e.mu.Lock()
+	defer e.mu.Unlock()
 	if idx >= 0 && idx < len(c.List) && !simrt.Free() {
 		c.List[idx].EndSeq = e.S.Seq
 		if c.List[idx].EndSeq == 0 {
